@@ -1,7 +1,7 @@
 SPECIFICATION Spec
 CONSTANTS
   Traces = {"a", "b", "c"}
-  KeepTraces = {"a", "b", "c"}
+  KeepTraces = {"a", "b"}
   DropTraces = {"a", "b"}
   Rates = {1}
   Reasons = {"ra"}
